@@ -13,6 +13,7 @@ import (
 	"testing"
 	"time"
 
+	"github.com/golang-jwt/jwt/v4"
 	"github.com/gotid/god/api/httpx"
 	"github.com/gotid/god/api/pathvar"
 	"github.com/gotid/god/api/router"
@@ -29,19 +30,45 @@ type verifC03Route struct {
 	P string `json:"p"`
 }
 
-
 // verifC03Req: Raw != "" builds the request from the raw target (net/http decodes it into URL.Path).
+// Sec != "": the request carries "Authorization: Bearer <HS256 token signed with Sec>" whose custom
+// claims are Claims (plus exp / iat), i.e. a valid token for routes protected with that secret.
 type verifC03Req struct {
-	M   string `json:"m"`
-	P   string `json:"p"`
-	Raw string `json:"raw"`
+	M      string          `json:"m"`
+	P      string          `json:"p"`
+	Raw    string          `json:"raw"`
+	Sec    string          `json:"sec"`
+	Claims []verifC03Claim `json:"claims"`
+}
+
+func verifC03Token(secret string, cl []verifC03Claim) (string, error) {
+	now := time.Now().Unix()
+	claims := jwt.MapClaims{"exp": now + 3600, "iat": now}
+	for _, c := range cl {
+		var v any
+		if err := json.Unmarshal(c.V, &v); err != nil {
+			return "", err
+		}
+		claims[c.K] = v
+	}
+	tok := jwt.New(jwt.SigningMethodHS256)
+	tok.Claims = claims
+	return tok.SignedString([]byte(secret))
 }
 
 // verifC03Opt is one RouteOption of a mount: prefix (WithPrefix(V)), timeout, maxbytes, priority,
 // signature (WithSignature of an empty, non-strict config).
+// jwt (WithJwt(V)) and jwtx (WithJwtTransition(V, P)) protect the mounted routes.
 type verifC03Opt struct {
 	O string `json:"o"`
 	V string `json:"v"`
+	P string `json:"p"`
+}
+
+// verifC03Claim is one custom claim of the request's token; the value is arbitrary JSON.
+type verifC03Claim struct {
+	K string          `json:"k"`
+	V json.RawMessage `json:"v"`
 }
 
 // verifC03Mount registers the caller's slice Slices[Slice] (the same []Route value every time it is
@@ -174,6 +201,10 @@ func TestVerifDriverC03(t *testing.T) {
 					opts = append(opts, WithPriority())
 				case "signature":
 					opts = append(opts, WithSignature(SignatureConfig{}))
+				case "jwt":
+					opts = append(opts, WithJwt(o.V))
+				case "jwtx":
+					opts = append(opts, WithJwtTransition(o.V, o.P))
 				}
 			}
 			switch {
@@ -218,6 +249,13 @@ func TestVerifDriverC03(t *testing.T) {
 				r.URL.Path = rq.P
 			}
 			r.Method = rq.M
+			if rq.Sec != "" {
+				tok, err := verifC03Token(rq.Sec, rq.Claims)
+				if err != nil {
+					return map[string]any{"error": "token: " + err.Error()}
+				}
+				r.Header.Set("Authorization", "Bearer "+tok)
+			}
 			rec := httptest.NewRecorder()
 			status := 0
 			if panicked, _ := verifdrv.Catch(func() { rt.ServeHTTP(rec, r) }); !panicked {
